@@ -61,8 +61,8 @@ func genWrap(g *vlib.G) {
 			n, pad := n, pad
 			ld := n + pad
 			nrhs := 2
-			ldb := nrhs + pad
-			dd := genDD(0)(n, n) // non-symmetric, diagonally dominant
+			ldb := nrhs + (pad+2)%5 // padded differently from a
+			dd := genDD(0)(n, n)    // non-symmetric, diagonally dominant
 			spd := genSPD(0)(n)
 			xt := xTrue(n, nrhs)
 			gen := func(a M) []float64 { return place(a, ld, nil).d }
@@ -302,8 +302,8 @@ func genWrap(g *vlib.G) {
 								cm, cn = 3, rf.dim
 							}
 							c := genDD(2)(cm, cn)
-							c1 := place(c, cn+pad, nil).d
-							f.orm(side, trans, general(a1, f.r, f.c, f.ld), tau, general(c1, cm, cn, cn+pad), make([]float64, lw), lw)
+							c1 := place(c, cn+pad+1, nil).d
+							f.orm(side, trans, general(a1, f.r, f.c, f.ld), tau, general(c1, cm, cn, cn+pad+1), make([]float64, lw), lw)
 							qop := q
 							if trans == blas.Trans {
 								qop = q.T()
@@ -314,7 +314,7 @@ func genWrap(g *vlib.G) {
 							} else {
 								want = mul(c, qop)
 							}
-							ck.ratio("orm |C-QC|/(n eps |C|)", norm1(sub(unplace(c1, cm, cn, cn+pad), want))/(dim*eps*math.Max(1, norm1(c))))
+							ck.ratio("orm |C-QC|/(n eps |C|)", norm1(sub(unplace(c1, cm, cn, cn+pad+1), want))/(dim*eps*math.Max(1, norm1(c))))
 						}
 					}
 					ck.ctx = f.orgK.name
